@@ -538,7 +538,36 @@ def run(ctx: Ctx) -> None:
                msg=f"token type {c.typ} is delivered by the token stream but has no entry in _want_spacing: it is printed with no blank on either side",
                node=tf.mod.tree, mod=tf.mod, nontrivial=False)
 
-    # -------------------------------------------------------------- triples
+    # -------------------------------------------------------------- triples (quick tier: the targeted ones)
+    if ctx.tier != "thorough":
+        # three fixed-text tokens whose texts, put together, spell a longer fixed-text token ('.' '.' '.' -> '...'):
+        # the full triple analysis is the thorough tier's, these few are checked on every run
+        ctx.rule("R16.3q", "three fixed-text tokens that together spell a longer token are kept apart", minimum=1)
+        fixed: Dict[str, Cls] = {}
+        for c in classes.values():
+            if c.value is not None and c.family != "keyword":
+                fixed.setdefault(c.value, c)
+        n3q = 0
+        for T_, whole in sorted(fixed.items()):
+            if len(T_) < 3:
+                continue
+            for i in range(1, len(T_) - 1):
+                for j in range(i + 1, len(T_)):
+                    parts = (T_[:i], T_[i:j], T_[j:])
+                    if not all(p_ in fixed for p_ in parts):
+                        continue
+                    A, M, B = (fixed[p_] for p_ in parts)
+                    n3q += 1
+                    sep = separated([A, M, B])
+                    ok3 = True
+                    why3 = ""
+                    if not (sep[0] or sep[1]):
+                        r = cr.cross([A, M, B])
+                        if r is not None and not (cr.cross([A, M]) or cr.cross([M, B])) and cr.cross([A, blank, M, blank, B]) is None:
+                            ok3 = False
+                            why3 = f"triple {A.name} {M.name} {B.name} printed without blanks: {r[1]!r} is taken by {r[0]} across both boundaries"
+                    ctx.ob("R16.3q", f"tokfmt:tokfmt|{fam(A)} {M.name} {fam(B)} -> {whole.name}", ok3, msg=why3, node=tf.fn, mod=tf.mod)
+        ctx.extra["targeted_triples"] = n3q
     if ctx.tier == "thorough":
         ctx.rule("R16.3", "no triple of token classes (middle one short) fuses across two boundaries", minimum=1)
         # only triples whose middle class is a fixed string of length <= 2 can be crossed entirely
